@@ -51,6 +51,12 @@ type ServerSide struct {
 	ResetAt int64 // peer resets when the stream reaches this offset (mid-write possible)
 	CloseAt int64 // peer closes (FIN) once it has received this many bytes
 	StallAt int64 // reader stops reading at this offset (send buffer fills up)
+	// SlowAt/SlowFor: a healthy but slow collector: at this offset it pauses reading for SlowFor,
+	// then drains everything (not a fault: nothing may be lost because of it)
+	SlowAt  int64
+	SlowFor time.Duration
+	// Discarded: bytes the client's kernel threw away at close (SO_LINGER 0)
+	Discarded []byte
 
 	PeerClosed   bool // FIN sent by peer
 	PeerReset    bool
@@ -120,10 +126,12 @@ func (a simAddr) String() string  { return a.s }
 // TCPConn is the client end. The name matches net.TCPConn so golib's type assertion
 // `client.(*net.TCPConn)` keeps compiling and holding.
 type TCPConn struct {
-	srv      *ServerSide
-	closed   bool
-	wdl, rdl time.Time
-	local    string
+	srv       *ServerSide
+	closed    bool
+	wdl, rdl  time.Time
+	local     string
+	linger    int
+	lingerSet bool
 }
 
 type timeoutErr struct{}
@@ -213,7 +221,7 @@ func DialTimeout(network, address string, timeout time.Duration) (net.Conn, erro
 		simrt.Fault("dial_refused")
 		return nil, opErr("dial", address, syscall.ECONNREFUSED)
 	}
-	srv := &ServerSide{Addr: address, Ordinal: len(n.Conns), ResetAt: -1, CloseAt: -1, StallAt: -1, bufCap: 64 * 1024}
+	srv := &ServerSide{Addr: address, Ordinal: len(n.Conns), ResetAt: -1, CloseAt: -1, StallAt: -1, SlowAt: -1, bufCap: 64 * 1024}
 	n.Conns = append(n.Conns, srv)
 	c := &TCPConn{srv: srv, local: "sim-client:" + strconv.Itoa(40000+srv.Ordinal)}
 	if ep.accept != nil {
@@ -360,6 +368,19 @@ func (c *TCPConn) Write(b []byte) (int, error) {
 			s.fault("peer_close_at_offset")
 			continue
 		}
+		if s.SlowAt >= 0 && !s.stalled && s.Accepted+int64(n) >= s.SlowAt {
+			k := int(s.SlowAt - s.Accepted)
+			if k < 0 {
+				k = 0
+			}
+			s.deliver(rest[:k])
+			written += k
+			s.stalled = true
+			s.SlowAt = -1
+			simrt.Probe("collector_slow")
+			simrt.AfterFunc(s.SlowFor, s.Unstall)
+			continue
+		}
 		// stalled reader: bounded send buffer
 		if s.StallAt >= 0 && !s.stalled && s.Accepted+int64(n) >= s.StallAt {
 			k := int(s.StallAt - s.Accepted)
@@ -501,6 +522,13 @@ func (c *TCPConn) Close() error {
 	}
 	c.closed = true
 	c.srv.ClientClosed = true
+	if c.linger == 0 && c.lingerSet && len(c.srv.pending) > 0 {
+		// SO_LINGER 0: close discards whatever the kernel had not sent yet and resets
+		c.srv.Discarded = append(c.srv.Discarded, c.srv.pending...)
+		c.srv.pending = nil
+		c.srv.buffered = 0
+		simrt.Probe("linger0_discarded_unsent_data")
+	}
 	c.srv.wake()
 	simrt.Note("client closes conn#" + strconv.Itoa(c.srv.Ordinal))
 	return nil
@@ -545,6 +573,30 @@ func (c *TCPConn) SetNoDelay(bool) error { return nil }
 //go:norace
 func (c *TCPConn) SetKeepAlive(bool) error { return nil }
 
+//go:norace
+func (c *TCPConn) SetKeepAlivePeriod(time.Duration) error { return nil }
+
+//go:norace
+func (c *TCPConn) SetReadBuffer(int) error { return nil }
+
+//go:norace
+func (c *TCPConn) SetWriteBuffer(int) error { return nil }
+
+// SetLinger as for *net.TCPConn: sec < 0 (default) lets a closed connection finish sending in
+// the background, sec == 0 discards unsent data at close.
+//
+//go:norace
+func (c *TCPConn) SetLinger(sec int) error {
+	c.linger, c.lingerSet = sec, sec >= 0
+	return nil
+}
+
+//go:norace
+func (c *TCPConn) CloseWrite() error { return nil }
+
+//go:norace
+func (c *TCPConn) CloseRead() error { return nil }
+
 // Server returns the collector side (harness use).
 //
 //go:norace
@@ -554,7 +606,7 @@ func (c *TCPConn) Server() *ServerSide { return c.srv }
 //
 //go:norace
 func NewPipe() (*TCPConn, *ServerSide) {
-	srv := &ServerSide{Addr: "pipe", ResetAt: -1, CloseAt: -1, StallAt: -1, bufCap: 64 * 1024}
+	srv := &ServerSide{Addr: "pipe", ResetAt: -1, CloseAt: -1, StallAt: -1, SlowAt: -1, bufCap: 64 * 1024}
 	return &TCPConn{srv: srv, local: "pipe-client"}, srv
 }
 
